@@ -21,10 +21,18 @@ output limit the caller passed, plus whether samples remain.  A feature vector i
 The code modelled is the tree **with the D8 repair** (`fixD8 = true`); `fixD8 = false` gives the control
 flow of the pinned tree so that the defect can be exhibited on the model as well.
 
-Branches that the decoder API cannot reach (`grow_feat = FALSE` ring wrap-around of `feat_buf`, the
-live-buffer clamp, the block special case of `feat_s2mfc2feat_live`) are kept as branches on the C
-condition and end in an explicit `fault`; the theorems prove that no fault is ever raised, i.e. that
-they are unreachable, rather than assuming it.
+Also modelled: the batch path `full_utt = 1` (`acmod_process_full_raw/_float32`, `acmod_process_full_cep`,
+`feat_s2mfc2feat_block_utt`, batch or live CMN on the whole utterance) including the permanent growth of the cepstrum
+buffer it causes, and — executable, tied by the correspondence run, but outside the streaming theorems — the live-buffer
+clamp of `feat_s2mfc2feat_live` that a cepstrum ring enlarged by an earlier batch utterance makes reachable (frames stay in
+the ring between calls).
+
+Branches that the decoder API cannot reach (`grow_feat = FALSE`: fixed-size feature ring and its wrap-around) are kept as
+branches on the C condition and end in an explicit `fault`; the theorems prove that no fault is ever raised, and that
+with the 128-frame ring of the streaming path the clamp is never taken, rather than assuming it.
+
+Line numbers in the comments refer to the tree the task started from (commit 9571b85); later `fix:` commits shift them
+by a few lines.
 -/
 namespace SSVerif.AcmodBuf
 open SSVerif.Generated
